@@ -11,6 +11,7 @@ import (
 	"net/http"
 	"regexp"
 	"strings"
+	"sync"
 
 	"github.com/rs/zerolog/log"
 	"github.com/samber/lo"
@@ -68,6 +69,16 @@ var (
 
 	haproxyReqCaptureNeededFrom = "http://localhost:" + haproxyManagePort + "/capture_req_from"
 	haproxyReqCaptureFormAll    = "http://localhost:" + haproxyManagePort + "/capture_req_all"
+)
+
+var (
+	// haproxyEndpointsMutex guards currentHAProxyEndpoints. An un-management
+	// holds it from reading currentHAProxyEndpoints until its last call to
+	// HAProxy; an update only while it sets currentHAProxyEndpoints.
+	haproxyEndpointsMutex sync.Mutex
+	// currentHAProxyEndpoints is the request of the last update of HAProxy's
+	// managed endpoints: what a delayed un-management must leave alone.
+	currentHAProxyEndpoints *HAProxyEndpointsRequest
 )
 
 type HAProxyEndpointData struct {
@@ -230,12 +241,26 @@ func partDelimiter(urlPart urltree.URLPart) string {
 }
 
 func ManageHAProxyEndpoints(haproxyEndpoints *HAProxyEndpointsRequest) error {
+	// Set before the endpoints are registered: an un-management scheduled by an
+	// earlier reload that runs from now on does not remove them again.
+	previousHAProxyEndpoints := setCurrentHAProxyEndpoints(haproxyEndpoints)
 	err := updateHAProxyEndpoints(haproxyEndpoints)
 	if err != nil {
+		setCurrentHAProxyEndpoints(previousHAProxyEndpoints)
 		return err
 	}
 	log.Debug().Msg("✍️  Successfully updated endpoints")
 	return nil
+}
+
+func setCurrentHAProxyEndpoints(
+	haproxyEndpoints *HAProxyEndpointsRequest,
+) *HAProxyEndpointsRequest {
+	haproxyEndpointsMutex.Lock()
+	defer haproxyEndpointsMutex.Unlock()
+	previousHAProxyEndpoints := currentHAProxyEndpoints
+	currentHAProxyEndpoints = haproxyEndpoints
+	return previousHAProxyEndpoints
 }
 
 // EndpointsToUnmanage returns the endpoints of the previous configuration
@@ -254,6 +279,14 @@ func EndpointsToUnmanage(
 }
 
 func unmanageHAProxyEndpoints(unmanagedEndpoints []*HAProxyEndpointData) error {
+	haproxyEndpointsMutex.Lock()
+	defer haproxyEndpointsMutex.Unlock()
+	// The un-management may have been scheduled by an earlier reload: an endpoint
+	// that the current configuration registers (again) stays managed.
+	if currentHAProxyEndpoints != nil {
+		unmanagedEndpoints = EndpointsToUnmanage(
+			unmanagedEndpoints, currentHAProxyEndpoints.ManagedEndpoints)
+	}
 	for _, unmanagedEndpoint := range unmanagedEndpoints {
 		err := operateEndpoint(unmanagedEndpoint.Endpoint, http.MethodDelete, haproxyManagedEndpointURL)
 		if err != nil {
@@ -360,6 +393,12 @@ func UnmanageAll() error {
 }
 
 func unmanageGlobal() error {
+	haproxyEndpointsMutex.Lock()
+	defer haproxyEndpointsMutex.Unlock()
+	// scheduled by an earlier reload, while the current configuration manages all
+	if currentHAProxyEndpoints != nil && currentHAProxyEndpoints.ManageAll {
+		return nil
+	}
 	return applyAllRequest(http.MethodDelete, haproxyUnmanageGlobalURL)
 }
 
